@@ -1,3 +1,4 @@
+import Model.Store
 /-
   Model of slimta/diskstorage/__init__.py as file-system effects: AioFile.dump (mkstemp, chunked
   aio_write, os.rename), DiskOps, DiskStorage.{write,set_timestamp,increment_attempts,
@@ -73,7 +74,7 @@ def Op.id : Op → Nat
 def newMeta (m : Meta) : Op → Meta
   | .setTs _ ts => { m with ts := ts }
   | .incr _ => { m with attempts := m.attempts + 1 }
-  | .deliver _ idxs => { m with delivered := m.delivered ++ idxs }
+  | .deliver _ idxs => { m with delivered := m.delivered ++ Store.sortDesc idxs }   -- `_add_delivered_round`
   | _ => m
 
 /-- The effects of one storage operation, in order. `k` = first unused temp name, `c1 c2` = chunk
